@@ -16,7 +16,7 @@ PROPS = {
     "C02": dict(lean=["GoatSpec.Properties.C02", "GoatSpec.Properties.Pools"], streams=["marks-corpus", "marks-stdlib", "marks-gen"], e2e=["track"], trusted=_INSTR_TRUSTED,
                 assumptions=["A2: go/printer∘go/parser preserves syntax tree and comments", "A3: astutil.AddNamedImport only edits import declarations"]),
     "C03": dict(lean=["GoatSpec.Properties.C03"], streams=["marks-corpus", "marks-stdlib", "marks-gen"], e2e=["track"], trusted=_INSTR_TRUSTED, assumptions=[]),
-    "C09": dict(lean=["GoatSpec.Properties.C09", "GoatSpec.Properties.C09Shape"], streams=["marks-corpus", "marks-stdlib", "marks-gen"], e2e=["track"], trusted=_INSTR_TRUSTED, assumptions=[]),
+    "C09": dict(lean=["GoatSpec.Properties.C09", "GoatSpec.Properties.C09Shape"], streams=["marks-corpus", "marks-stdlib", "marks-gen", "diff-exact"], e2e=["track"], trusted=_INSTR_TRUSTED, assumptions=[]),
     "C06": dict(
         lean=["GoatSpec.Properties.C06", "GoatSpec.Properties.Pools"],
         streams=["text-pass-raw", "text-clean-tokens", "text-clean-file"],
@@ -93,7 +93,7 @@ PROPS = {
         assumptions=["A10 (monitored, not proved): a Go program with goat's blocks inserted between statements is a transition system in which Track steps touch only trackIdStatus and user steps never "
                      "read it (frame conditions user_sim, track_stutter, lift of NonInterf.Instr); programs are deterministic (checked: the original is run twice); GOAT_PORT=0 so the service goroutine cannot fail"],
     ),
-    "C04": dict(lean=["GoatSpec.Properties.C04"], streams=["diff-pairs", "diff-histories", "diff-filter"], e2e=[],
+    "C04": dict(lean=["GoatSpec.Properties.C04"], streams=["diff-pairs", "diff-histories", "diff-filter", "diff-exact"], e2e=[],
                 trusted=["modelled, not verified: go-git tree diff, rename detection, diffmatchpatch line diff and blame (inputs of the model: chunk lists, blame vectors, commit table — computed by the harness by calling go-git directly on the same repository, never through goat); "
                          "the git CLI (repository construction, `git cat-file` contents the judge compares against); path eligibility is an input here (modelled and proved in C13)"],
                 assumptions=["A4: go-git chunks concatenate to the two blobs (monitored: the judge compares against git cat-file contents, not against the chunks)",
